@@ -386,6 +386,113 @@ def _abscase(ctx) -> None:
                        f"abstract outcome {got}; the documented rule requires {want}", m.loc(ex[2] if ex[2] is not None else fn))
 
 
+def _convert_tabulate(ctx) -> None:
+    """CONVERT.tabulated: Timezone.convert / Timezone.datetime (and FixedTimezone's) run by the checker's interpreter on naive
+    standard-library datetimes.  The zone is a standard-library tzinfo whose utcoffset() answers from one scenario transition
+    (a skipped or a repeated stretch of 30 minutes, an hour, a whole day - the date line moves of Pacific/Apia - ; other methods of the class are interpreted from the source).  For wall
+    times before, at both ends of, inside and after the stretch, both folds, with and without raise_on_unknown_times: a wall time
+    that exists once is returned as it is; inside a repeated stretch the fold selects the occurrence (the value keeps its fold);
+    inside a skipped stretch it is moved forward by the length of the gap for fold=1 and backward for fold=0; with
+    raise_on_unknown_times NonExistingTime is raised exactly for skipped and AmbiguousTime exactly for repeated wall times;
+    every value returned is a valid local time of the zone carrying the zone as tzinfo."""
+    import datetime as _dt
+    from ..rules import minieval
+    m = pmod("tz.timezone")
+    H, M30 = _dt.timedelta(hours=1), _dt.timedelta(minutes=30)
+    O = _dt.timedelta(hours=1)
+    funcs = {st.name: st for st in m.top() if isinstance(st, ast.FunctionDef)}
+    glob = {**minieval.module_consts(m), "_datetime": minieval.Stub(datetime=_dt.datetime, timedelta=_dt.timedelta, tzinfo=_dt.tzinfo, timezone=_dt.timezone),
+            "NonExistingTime": ValueError, "AmbiguousTime": ValueError, "ValueError": ValueError}
+
+    def make_zone(cls, tr, fixed=None):
+        meths = m.methods(cls)
+        props = {k for k, f in meths.items() if any(core.dotted(d) == "property" for d in f.decorator_list)}
+
+        class Zone(_dt.tzinfo):
+            def utcoffset(self, d):
+                if fixed is not None:
+                    return fixed
+                w = d.replace(tzinfo=None, fold=0)
+                kind, t, ln = tr
+                if kind == "skip":
+                    return O if w < t else O + ln if w >= t + ln else (O if d.fold == 0 else O + ln)
+                return O if w < t - ln else O - ln if w >= t else (O if d.fold == 0 else O - ln)
+
+            def dst(self, d):
+                return _dt.timedelta(0)
+
+            def tzname(self, d):
+                return "Scenario/Zone"
+
+            def __getattr__(self, name):
+                if name.startswith("__") or name not in meths:
+                    raise AttributeError(name)
+                if name in props:
+                    return minieval.call(meths[name], [self], {}, {**funcs, "$globals": glob})
+                return lambda *a, **k: minieval.call(meths[name], [self, *a], k, {**funcs, "$globals": glob})
+        return Zone(), meths
+    for cls in ("Timezone", "FixedTimezone"):
+        bad, n = [], 0
+        try:
+            scen = [("skip", _dt.datetime(2021, 3, 28, 2), H), ("skip", _dt.datetime(2021, 10, 3, 2), M30), ("repeat", _dt.datetime(2021, 10, 31, 3), H),
+                    ("repeat", _dt.datetime(2021, 4, 4, 2), M30),
+                    ("skip", _dt.datetime(2011, 12, 30, 0), _dt.timedelta(days=1)), ("repeat", _dt.datetime(1994, 12, 31, 0), _dt.timedelta(days=1, hours=1))] if cls == "Timezone" else [None]
+            for tr in scen:
+                z, meths = make_zone(cls, tr, fixed=None if tr else _dt.timedelta(hours=5, minutes=30))
+                if tr is None:
+                    walls = [_dt.datetime(2021, 3, 28, 2, 30), _dt.datetime(2000, 1, 1)]
+                    lo = hi = None
+                else:
+                    kind, t, ln = tr
+                    lo, hi = (t, t + ln) if kind == "skip" else (t - ln, t)
+                    walls = [lo - _dt.timedelta(microseconds=1), lo, lo + ln / 2, hi - _dt.timedelta(microseconds=1), hi, hi + H, lo - _dt.timedelta(days=1)]
+                for w in walls:
+                    inside = tr is not None and lo <= w < hi
+                    for fold in (0, 1):
+                        for raising in (False, True):
+                            n += 1
+                            label = f"{cls}.convert({w.isoformat(' ')} fold={fold}" + (", raise_on_unknown_times=True" if raising else "") + ")" + (f" [{tr[0]} {lo.time()}-{hi.time()}]" if tr else "")
+                            try:
+                                got = minieval.call(meths["convert"], [z, w.replace(fold=fold)] + ([True] if raising else []), {}, {**funcs, "$globals": glob})
+                            except minieval.Raised as e:
+                                exp = ("NonExistingTime" if tr[0] == "skip" else "AmbiguousTime") if (raising and inside and cls == "Timezone") else None
+                                if e.exc_name != exp:
+                                    bad.append(f"{label}: raises {e.exc_name}" + (f" (expected {exp})" if exp else ""))
+                                continue
+                            if raising and inside and cls == "Timezone":
+                                bad.append(f"{label}: returns {got!r}; must raise {'NonExistingTime' if tr[0] == 'skip' else 'AmbiguousTime'}")
+                                continue
+                            if not isinstance(got, _dt.datetime) or got.tzinfo is not z:
+                                bad.append(f"{label}: the result does not carry the zone as tzinfo ({got!r})")
+                                continue
+                            if inside and tr[0] == "skip":
+                                want_w = w + ln if fold == 1 else w - ln
+                            else:
+                                want_w = w
+                            if got.replace(tzinfo=None, fold=0) != want_w:
+                                bad.append(f"{label}: {got.replace(tzinfo=None).isoformat(' ')} (expected {want_w.isoformat(' ')})")
+                            elif inside and tr[0] == "repeat" and got.fold != fold:
+                                bad.append(f"{label}: the {'second' if got.fold else 'first'} occurrence (fold={got.fold}) instead of the one the fold selects")
+            if "datetime" in meths and cls == "Timezone":
+                for tr in scen:
+                    z, meths = make_zone(cls, tr)
+                    kind, t, ln = tr
+                    lo = t if kind == "skip" else t - ln
+                    w = lo + ln / 2
+                    n += 1
+                    got = minieval.call(meths["datetime"], [z, w.year, w.month, w.day, w.hour, w.minute, w.second, w.microsecond], {}, {**funcs, "$globals": glob})
+                    want_w = w + ln if kind == "skip" else w
+                    if not isinstance(got, _dt.datetime) or got.replace(tzinfo=None, fold=0) != want_w or (kind == "repeat" and got.fold != 1):
+                        bad.append(f"{cls}.datetime({w.isoformat(' ')}) [{kind}]: {got!r}; the documented default is the later occurrence / forward")
+        except (core.Unsupported, KeyError, TypeError, AttributeError, IndexError, ValueError, RecursionError) as e:
+            ctx.unverified("CONVERT.tabulated", f"{cls}.convert", f"outside the checker's interpreter: {type(e).__name__}: {e}", m.rel)
+            continue
+        ctx.ob("CONVERT.tabulated", f"{cls}.convert", not bad, f"{n} (wall time, fold, flag, transition) cases: " + (f"wrong: {bad[:3]}" if bad else
+               "existing wall times unchanged, repeated ones by fold, skipped ones moved by the gap, the exceptions exactly where asked for"), m.rel)
+        if not bad:
+            ctx.established(("ABSCASE", "UNITS.offset-delta", "DEFAULTS.raise"), f"{cls}.convert", "CONVERT.tabulated")
+
+
 def _local_env(ctx) -> None:
     """LOCAL.env: the zone local() builds in when TZ is set - `_tz_from_env` run by the checker's interpreter on TZ values with
     and without the POSIX ':' prefix (no file of that name): the zone constructed must be the name without the prefix."""
@@ -414,6 +521,7 @@ def _local_env(ctx) -> None:
 
 def run(ctx) -> None:
     ctx.explanation = EXPLANATION
+    ctx.step(_convert_tabulate, ctx)
     ctx.step(_local_env, ctx)
     from . import C07
     ctx.step(C07._fraction, ctx, None)        # parse(tz=) returns exactly that wall time: the sub-second digits of the Python parsers
